@@ -83,7 +83,7 @@ static void creator_timer(void *dummy)
 	}
 }
 
-static void quiescent(void)
+static int quiescent(void)
 {
 	mc_fail("stuck", "all threads blocked for good but the creator's iv_main has not returned (children done: %d %d)", body_done[0], body_done[1]);
 }
